@@ -22,6 +22,17 @@ Oracle (independent of the wrapper cache):
   * a request naming only unlocked flags that no request touched since the last commit must succeed;
   * no exception escapes a request (core.guarded).
 
+Generation: hypothesis draws one 48-bit integer per case and `gen_case` expands it deterministically into
+the JSON case (building the nested case with hypothesis strategies cost 25-60 ms per case); minimisation
+is done by `shrink_case` (greedy deletion of ops/reads/flags/tree nodes keeping the bucket).
+
+Buckets: `stale-view:commit-in-window` / `stale-view:after-<last USE-changing op>` (read returns the value
+of an earlier USE set), `wrong-view:*`, `refused-changed-set:*`, `exception-changed-set:*`,
+`success-wrong-set:*`, `rollback:set-not-restored`, `locked-flag-changed`, `possible-refused:*`, crash buckets,
+and `useset:noop-change-reverted` = the divergence is exactly a flag that was enabled-while-on /
+disabled-while-off in this transaction and got flipped by a rollback (snakeoil LimitedChangeSet defect,
+outside /repo; proposed known finding).
+
 Dropped from DESIGN §3 C14: hypothesis RuleBasedStateMachine (a plain JSON op list is used instead);
 requests on wrapped attributes (request_enable("depend", atom): dead path, nobody calls it, the
 statement's quantifier is about flags).  `force` ops only get the set/view invariants (their own
@@ -50,7 +61,8 @@ LEVEL_NOTE = (
     "comparison does not rely on it). Search, not proof."
 )
 RULE = (
-    "hypothesis histories of 1..14 ops over flags a-d (IUSE), x,y (outside IUSE / explicitly locked); "
+    "one hypothesis-drawn integer seeds a generator of a package (7 dependency-style variables with nested USE "
+    "conditionals) and a history of 1..14 ops over flags a-d (IUSE), x,y (outside IUSE / explicitly locked); "
     "non-trivial = some attribute is read, then a successful disable, commit or rollback happens, then the same "
     "attribute is read again; distinct = canonical JSON of the whole case"
 )
@@ -523,7 +535,7 @@ def _edit(tree, path, how):
 
 def plan(tier, seed):
     if tier == "quick":
-        return [{"task": "hist", "examples": 1000} for _ in range(16)]
+        return [{"task": "hist", "examples": 600} for _ in range(16)]
     return [{"task": "hist", "examples": 40000} for _ in range(16)]
 
 
@@ -531,7 +543,7 @@ def run_task(ctx, task, **kw):
     if task != "hist":
         raise core.HarnessError(f"unknown task {task}")
     env = Env()
-    core.hyp_run(ctx, case_strategy(), lambda c: run_history(ctx, env, c), kw["examples"], chunk=500)
+    core.hyp_run(ctx, case_strategy(), lambda c: run_history(ctx, env, c), kw["examples"], chunk=300)
 
 
 def replay(ctx, case):
